@@ -620,6 +620,10 @@ func (g *Gen) strSub(s, lo, hi string) Val {
 		g.decl(fmt.Sprintf("(assert (forall ((s Str) (a %s) (b %s) (i %s)) (! (=> (and %s %s %s %s %s) (= (gstr.at (gstr.sub s a b) i) (gstr.at s %s))) :pattern ((gstr.at (gstr.sub s a b) i)))))",
 			ix, ix, ix, le(z, "a"), le("a", "b"), le("b", "(gstr.len s)"), le(z, "i"), lt("i", g.isub("b", "a")), g.iadd("a", "i")))
 		g.decl(fmt.Sprintf("(assert (forall ((s Str)) (! (= (gstr.sub s %s (gstr.len s)) s) :pattern ((gstr.sub s %s (gstr.len s))))))", z, z))
+		// the same fact read from the whole string towards the substring (a byte of s that lies inside the window is
+		// a byte of the substring): needed to carry "no '}' in tail" back to positions of the string
+		g.decl(fmt.Sprintf("(assert (forall ((s Str) (a %s) (b %s) (j %s)) (! (=> (and %s %s %s %s) (= (gstr.at s j) (gstr.at (gstr.sub s a b) %s))) :pattern ((gstr.sub s a b) (gstr.at s j)))))",
+			ix, ix, ix, le(z, "a"), le("a", "j"), lt("j", "b"), le("b", "(gstr.len s)"), g.isub("j", "a")))
 	}
 	return Val{S: app("gstr.sub", s, lo, hi), Sort: "Str", GT: tString}
 }
